@@ -70,8 +70,15 @@ def part_text(before, after, ranges, p):
 
 
 def part_of(line, ranges):
-    if line < 0:  # insertion after original line -line: belongs to the copy holding that line, unless it is its last line + module level
+    if line < 0:
+        # insertion after original line -line: it belongs to the copy holding that line; an insertion after a copy's
+        # last line (blank lines between copies, the end of the file) belongs to the copy that precedes it
         line = -line
+        for i, a, b in ranges:
+            if a <= line <= b:
+                return i
+        before_it = [r for r in ranges if r[1] <= line]
+        return max(before_it, key=lambda r: r[1])[0] if before_it else None
     for i, a, b in ranges:
         if a <= line <= b:
             return i
